@@ -65,9 +65,11 @@ EXTRA = {
  "C06": " Also: the id, class and caption strings handed to the template are the wrapper's settings read as they are.",
  "C07": " Also: wherever json.Marshal of the item may have failed nothing else is encoded, written or reported as success.",
  "C10": " Also: every renderer registers its measuring callback for the RENDER slot of each cell (sibling agreement).",
- "C11": " Also: AddError records every non-nil error a non-nil container is given (no filter, limit or de-duplication).",
+ "C11": " Also: AddError records every non-nil error a non-nil container is given (no filter, limit or de-duplication); no caller hands a row-installing function a row that already shares the table's container.",
  "C14": " Also (premise from C06): what a renderer keeps between renders is re-bound to the current wrapper and table before each use.",
  "C16": " Also: no exported function stores into a slice or map its caller handed it (callers may share what they build tables from).",
+ "C17": " Also (premise from C19): every decoration section of a style string reaches SetDecorationNamed, as written and even when empty.",
+ "C02": " Also: every store into the list of column handles keeps the existing handles in place (own list extended, or a new slice into which every old entry was copied first).",
  "C18": " Also: the count formula gives the height only of a text known not to be empty (the splitter yields no line for the empty text).",
 }
 
